@@ -52,8 +52,44 @@ theorem KS.blockScalarLines (lit : Bool) (indent : Nat) (fuel : Nat) : ∀ a, KS
   | succ n ih => intro a; unfold Sc.blockScalarLines; ks
 macro_rules | `(tactic| ks_close) => `(tactic| exact KS.blockScalarLines _ _ _ _)
 set_option maxHeartbeats 4000000 in
+theorem KS.blockHeaderDigit (m : Marker) (ch : Chomping) : KS (blockHeaderDigit m ch) := by
+  unfold Sc.blockHeaderDigit; (try unfold In.nextIsDigit); (try unfold In.nextIsBreakz); (try unfold In.nextIsBreak); (try unfold In.nextIsZ); ks
+macro_rules | `(tactic| ks_close) => `(tactic| exact KS.blockHeaderDigit _ _)
+set_option maxHeartbeats 4000000 in
+theorem KS.blockHeaderChomp (d : Char) : KS (blockHeaderChomp d) := by
+  unfold Sc.blockHeaderChomp; (try unfold In.nextIsDigit); (try unfold In.nextIsBreakz); (try unfold In.nextIsBreak); (try unfold In.nextIsZ); ks
+macro_rules | `(tactic| ks_close) => `(tactic| exact KS.blockHeaderChomp _)
+set_option maxHeartbeats 4000000 in
+theorem KS.blockHeader (m : Marker) (c : Char) (b : Bool) : KS (blockHeader m c b) := by
+  unfold Sc.blockHeader; (try unfold In.nextIsDigit); (try unfold In.nextIsBreakz); (try unfold In.nextIsBreak); (try unfold In.nextIsZ); ks
+macro_rules | `(tactic| ks_close) => `(tactic| exact KS.blockHeader _ _ _)
+set_option maxHeartbeats 4000000 in
+theorem KS.blockChompingBreak  : KS (blockChompingBreak ) := by
+  unfold Sc.blockChompingBreak; (try unfold In.nextIsDigit); (try unfold In.nextIsBreakz); (try unfold In.nextIsBreak); (try unfold In.nextIsZ); ks
+macro_rules | `(tactic| ks_close) => `(tactic| exact KS.blockChompingBreak )
+set_option maxHeartbeats 4000000 in
+theorem KS.blockIndent (inc : Nat) (s : Sc) : KS (blockIndent inc s) := by
+  unfold Sc.blockIndent; (try unfold In.nextIsDigit); (try unfold In.nextIsBreakz); (try unfold In.nextIsBreak); (try unfold In.nextIsZ); ks
+macro_rules | `(tactic| ks_close) => `(tactic| exact KS.blockIndent _ _)
+set_option maxHeartbeats 4000000 in
+theorem KS.blockMarkerCheck (ind : Nat) (s : Sc) : KS (blockMarkerCheck ind s) := by
+  unfold Sc.blockMarkerCheck; (try unfold In.nextIsDigit); (try unfold In.nextIsBreakz); (try unfold In.nextIsBreak); (try unfold In.nextIsZ); ks
+macro_rules | `(tactic| ks_close) => `(tactic| exact KS.blockMarkerCheck _ _)
+set_option maxHeartbeats 4000000 in
+theorem KS.blockFinish (ch : Chomping) (ind : Nat) (a : BlkAcc) (s : Sc) : KS (blockFinish ch ind a s) := by
+  unfold Sc.blockFinish; (try unfold In.nextIsDigit); (try unfold In.nextIsBreakz); (try unfold In.nextIsBreak); (try unfold In.nextIsZ); ks
+macro_rules | `(tactic| ks_close) => `(tactic| exact KS.blockFinish _ _ _ _)
+set_option maxHeartbeats 4000000 in
+theorem KS.blockContent (lit : Bool) (ch : Chomping) (ind : Nat) (tb : Str) (s : Sc) : KS (blockContent lit ch ind tb s) := by
+  unfold Sc.blockContent; (try unfold In.nextIsDigit); (try unfold In.nextIsBreakz); (try unfold In.nextIsBreak); (try unfold In.nextIsZ); ks
+macro_rules | `(tactic| ks_close) => `(tactic| exact KS.blockContent _ _ _ _ _)
+set_option maxHeartbeats 4000000 in
+theorem KS.blockAfterHeader (lit : Bool) (m : Marker) (ch : Chomping) (inc : Nat) (cb : Str) : KS (blockAfterHeader lit m ch inc cb) := by
+  unfold Sc.blockAfterHeader; (try unfold In.nextIsDigit); (try unfold In.nextIsBreakz); (try unfold In.nextIsBreak); (try unfold In.nextIsZ); ks
+macro_rules | `(tactic| ks_close) => `(tactic| exact KS.blockAfterHeader _ _ _ _ _)
+set_option maxHeartbeats 4000000 in
 theorem KS.scanBlockScalarBody (lit : Bool) (m : Marker) : KS (scanBlockScalarBody lit m) := by
-  unfold Sc.scanBlockScalarBody In.nextIsDigit In.nextIsBreakz In.nextIsBreak In.nextIsZ; ks
+  unfold Sc.scanBlockScalarBody; (try unfold In.nextIsDigit); (try unfold In.nextIsBreakz); (try unfold In.nextIsBreak); (try unfold In.nextIsZ); ks
 macro_rules | `(tactic| ks_close) => `(tactic| exact KS.scanBlockScalarBody _ _)
 
 end SaphyrModel.Sc
